@@ -489,7 +489,7 @@ def block_exact(rec, members, out):
 CHECK_NAMES = ("Check_IsPositiveExpr", "Check_IsNonNegativeExpr", "Check_CompareExprs", "Check_ExprBound",
                "Check_IsDivisible", "Check_ExprEqvInContext", "Check_IsIdempotent", "Check_FissionLoop",
                "Check_ReorderStmts", "Check_ReorderLoops", "Check_IsDeadAfter", "Check_Bounds", "Check_Aliasing",
-               "Check_Access_In_Window", "Check_BufferReduceOnly")
+               "Check_Access_In_Window", "Check_BufferReduceOnly", "Check_DeleteConfigWrite")
 
 
 def check_outcome(g, nm):
@@ -498,7 +498,7 @@ def check_outcome(g, nm):
     pol = g.ghost.get("check_policy", {}).get(nm)
     if pol == "succeeds":
         # a check whose failure makes the primitive refuse (SchedulingError) at once: nothing to forward
-        return None
+        return frozenset() if nm == "Check_DeleteConfigWrite" else None
     if pol == "once per path":
         # one outcome for all calls of this check on a path (keeps the number of paths of stage_mem small)
         memo = g.ghost.setdefault("check_memo", {})
